@@ -138,8 +138,10 @@ def run(ctx):
         return
     d = os.path.join(vlib.BUILD, "cases")
     os.makedirs(d, exist_ok=True)
-    vfile = os.path.join(d, "C06_cases.v")
-    side = os.path.join(d, "C06_cases.jsonl")
+    # per-run file names: several C06 runs (quick, thorough, seed tests) may be active at the same time
+    run_tag = "C06r%d" % os.getpid()
+    vfile = os.path.join(d, run_tag + "_cases.v")
+    side = os.path.join(d, run_tag + "_cases.jsonl")
     sizes = SIZES[ctx.tier]
     all_entries = [e for e in (json.load(open(KNOWN_FILE)) if os.path.exists(KNOWN_FILE) else []) if e.get("property") == ctx.pid]
     known_entries = [e for e in all_entries if e.get("status", "known") == "known"]
@@ -151,7 +153,7 @@ def run(ctx):
                        [dict(e, prefix="known") for e in known_entries if e["witness"].get("half") != "scan"])
         kfile = None
         if image_known:
-            kfile = os.path.join(d, "C06_known.json")
+            kfile = os.path.join(d, run_tag + "_known.json")
             json.dump(image_known, open(kfile, "w"))
         os.makedirs(os.path.join(sandbox, "img"))
         hout = run_harness(ctx, binp, os.path.join(sandbox, "img"), vfile, side, sizes, kfile)
@@ -164,7 +166,13 @@ def run(ctx):
     for i, c in enumerate(cases):
         op = c["op"]
         idx["ucases" if op.startswith("unpack") else "lcases" if op.startswith("image") else "pcases"].append(i)
-    res = eval_chunks(ctx, vfile)
+    res = eval_chunks(ctx, vfile, tag=run_tag)
+    for fn in os.listdir(d):
+        if fn.startswith(run_tag + "_"):
+            try:
+                os.remove(os.path.join(d, fn))
+            except OSError:
+                pass
     corr_bad, spec_bad, out_d = [], [], set()
     for kind in ("ucases", "lcases", "pcases"):
         corr_bad += [idx[kind][i] for i in res[kind][0]]
@@ -305,12 +313,13 @@ def run_scan(ctx, binp, sandbox, rounds):
     """Scan half (oracle only): fixture trees scanned with offline built-in extractors through DirFS."""
     sdir = os.path.join(sandbox, "scan")
     os.makedirs(sdir, exist_ok=True)
-    outp = os.path.join(vlib.BUILD, "cases", "C06_scan.json")
+    outp = os.path.join(vlib.BUILD, "cases", "C06_scan_%d.json" % os.getpid())
     rc, out = vlib.sh([binp, "-sandbox", sdir, "-scanmode", "-scanout", outp, "-seed", str(ctx.seed),
                        "-scanrounds", str(rounds), "-repo", vlib.REPO], timeout=1500)
     if rc != 0:
         raise RuntimeError("scan harness failed: " + out[-3000:])
     res = json.load(open(outp))
+    os.remove(outp)
     ctx.log("scan half: runs=%d files=%d extractors=%d bad=%d" % (res["runs"], res["files"], res["extractors"], len(res["bad"])))
     return res
 
@@ -331,7 +340,7 @@ def replay(ctx, path):
              "Definition model := Eval vm_compute in (clean a, join2 a b, dir_of a, base_of a, target_outside_root MARK a b).\nPrint model.\n"
              % (coq_bytes(p["a"]), coq_bytes(p["b"])))
         print("implementation:", json.dumps(p))
-        rc, out = ctx.run_cases("C06_replay", v)
+        rc, out = ctx.run_cases("C06_replay_%d" % os.getpid(), v)
         print(out)
         return 0
     sandbox = tempfile.mkdtemp(prefix="c06sb-")
@@ -358,7 +367,7 @@ def replay(ctx, path):
             v += ("Definition c : lcase := %s.\nDefinition model := Eval vm_compute in image_run (lc_extract c) (lc_max c) MARK (lc_init c) (lc_layers c).\nPrint model.\n"
                   "Definition verdicts := Eval vm_compute in (lcase_model_ok c, lcase_spec_ok c).\nPrint verdicts.\n"
                   % lc[0][len("coq-lcase: "):])
-        rc, out = ctx.run_cases("C06_replay", v)
+        rc, out = ctx.run_cases("C06_replay_%d" % os.getpid(), v)
         print("model / (model_ok, spec_ok[, in_D, kept-link oracle claimed, kept-link oracle ok, no-file-outside ok]):")
         print(out)
     return 0
